@@ -38,4 +38,28 @@ def report (f : FolderStore) : List Failure :=
 /-- what writing a row stores: the digest of the content -/
 def mkRow (content : Bytes) : Row := { content := content, checksum := H.leaf content }
 
+/-! ### external file blobs (`file_integrity`) -/
+
+/-- an expected external file: the digest that names it and what is on disk (`none` = absent) -/
+structure BlobFile where
+  name : H
+  onDisk : Option Bytes
+deriving DecidableEq, Repr
+
+inductive FileFailure where
+  | missingFile (name : H)
+  | corruptedFile (name actual : H)
+deriving DecidableEq, Repr
+
+def checkFile (f : BlobFile) : Option FileFailure :=
+  match f.onDisk with
+  | none => some (.missingFile f.name)
+  | some bytes => if H.leaf bytes = f.name then none else some (.corruptedFile f.name (H.leaf bytes))
+
+/-- failures reported for a set of expected files -/
+def fileReport (files : List BlobFile) : List FileFailure := files.filterMap checkFile
+
+/-- what storing a blob leaves on disk: the bytes under the name of their digest -/
+def mkBlob (bytes : Bytes) : BlobFile := { name := H.leaf bytes, onDisk := some bytes }
+
 end Sos.Integrity
